@@ -99,9 +99,9 @@ func (fc *FnCtx) instr(ins ssa.Instruction) {
 		fn := x.Fn.(*ssa.Function)
 		id := fc.define(fc.freshName("clo"), st.next)
 		st.next = fc.define(fc.freshName("next"), Add(st.next, IntLit(1)))
-		_ = fn
 		fc.vals[x] = Leaf(id)
 		fc.closures[x] = x
+		fc.closureAxiom(x, fn, id)
 	case *ssa.MakeMap:
 		id := fc.define(fc.freshName("map"), st.next)
 		st.next = fc.define(fc.freshName("next"), Add(st.next, IntLit(1)))
@@ -252,6 +252,113 @@ func (fc *FnCtx) valueEq(a, b Value, t types.Type) Term {
 		cs = append(cs, fc.valueEq(a.E[i], b.E[i], ft))
 	}
 	return And(cs...)
+}
+
+// closureAxiom: a closure whose function is under a `pure` contract, created over captured
+// variables that can never change (read-only locals), denotes a mathematical function: for all
+// arguments that satisfy the contract's requires, apply(closure, args) satisfies its ensures.
+// The closure's own body is verified against the same contract like any other function.
+func (fc *FnCtx) closureAxiom(x *ssa.MakeClosure, fn *ssa.Function, id Term) {
+	c := fc.eng.contractFor(fn)
+	if c == nil || !c.Pure || len(c.Ensures) == 0 || fn.Signature.Results().Len() != 1 || fc.pureMode {
+		return
+	}
+	if x == nil && len(fn.FreeVars) > 0 {
+		return
+	}
+	if fc.axiomDone == nil {
+		fc.axiomDone = map[string]bool{}
+	}
+	if fc.axiomDone[id.S] {
+		return
+	}
+	fc.axiomDone[id.S] = true
+	env := fc.newEnv(fc.cur)
+	env.callee = true
+	if fn.Parent() != nil && fn.Parent().Pkg != nil {
+		env.pkg = fn.Parent().Pkg.Pkg
+	}
+	for i, fv := range fn.FreeVars {
+		a, ok := x.Bindings[i].(*ssa.Alloc)
+		if !ok || !fc.readOnlyLocal(a) {
+			return
+		}
+		var st *ssa.Store
+		for _, r := range *a.Referrers() {
+			if s, ok := r.(*ssa.Store); ok && s.Addr == ssa.Value(a) {
+				st = s
+			}
+		}
+		if st == nil || !(st.Block() == x.Block() || st.Block().Dominates(x.Block())) {
+			return
+		}
+		sv, known := fc.vals[st.Val]
+		if !known || sv.K == KOpaque {
+			return
+		}
+		pt, isPtr := fv.Type().Underlying().(*types.Pointer)
+		if !isPtr {
+			return
+		}
+		env.binds[fv.Name()] = binding{sv, pt.Elem()}
+	}
+	for _, lv := range c.Logical {
+		b, ok := fc.logical[lv]
+		if !ok {
+			return
+		}
+		env.binds[lv] = b
+	}
+	var qv []string
+	var args []Value
+	for _, p := range fn.Params {
+		sh := shapeOf(p.Type(), fc.mode)
+		if sh.K != KLeaf || sh.Sort != SInt {
+			return
+		}
+		fc.nfresh++
+		name := fmt.Sprintf("%s!q%d", p.Name(), 800000+fc.nfresh)
+		qv = append(qv, name)
+		v := Leaf(Term{name, SInt})
+		env.binds[p.Name()] = binding{v, p.Type()}
+		args = append(args, v)
+	}
+	rt := fn.Signature.Results().At(0).Type()
+	res, ok := fc.applyUF(id, args, rt)
+	if !ok {
+		return
+	}
+	env.binds["result"] = binding{res, rt}
+	env.binds["result0"] = binding{res, rt}
+	env.oldBinds = map[string]binding{}
+	for k, v := range env.binds {
+		env.oldBinds[k] = v
+	}
+	env.old = fc.cur
+	var pre, post []Term
+	for _, r := range c.Requires {
+		t, err := fc.specBool(env, r.Text)
+		if err != nil {
+			return
+		}
+		pre = append(pre, t)
+	}
+	for _, en := range c.Ensures {
+		if en.GoalOnly {
+			continue
+		}
+		t, err := fc.specBool(env, en.Text)
+		if err != nil {
+			return
+		}
+		post = append(post, t)
+	}
+	ax := Implies(And(pre...), And(post...))
+	for i := len(qv) - 1; i >= 0; i-- {
+		ax = Term{fmt.Sprintf("(forall ((%s Int)) %s)", qv[i], ax.S), SBool}
+	}
+	fc.assume(ax)
+	fc.usedAssumed[relName(fn)+": closure value denotes the pure function of its contract (captured variables are read-only locals)"] = true
 }
 
 // readOnlyLoad: a load, directly or through a chain of field addresses, from a read-only local
